@@ -438,6 +438,43 @@ func one(raw json.RawMessage, c *lcase, idx int) {
 		case "javacpu":
 			data = printJavaCPU(d, v)
 		}
+		if (d.Fmt == "gocount" || d.Fmt == "heap" || d.Fmt == "contention" || d.Fmt == "threadz") && c.Map == "none" && k%2 == 1 {
+			// the text formats with addresses in the upper half of the address space (kernel frames): every mapping
+			// is the made-up one, so only the addresses move
+			const hiText = uint64(0xffffffff81000000)
+			hd := *d
+			hd.Recs = nil
+			for _, r := range d.Recs {
+				r2 := r
+				r2.Stack = nil
+				for _, a := range r.Stack {
+					r2.Stack = append(r2.Stack, a+hiText)
+				}
+				hd.Recs = append(hd.Recs, r2)
+			}
+			hc := *c
+			hc.Doc = hd
+			hc.Stacks = nil
+			for _, st := range c.Stacks {
+				var x []uint64
+				for _, a := range st {
+					x = append(x, a+hiText)
+				}
+				hc.Stacks = append(hc.Stacks, x)
+			}
+			switch d.Fmt {
+			case "gocount":
+				data = printGoCount(&hd, v)
+			case "heap":
+				data = printHeap(&hd, v)
+			case "contention":
+				data = printContention(&hd, v)
+			case "threadz":
+				data = printThreadz(&hd, v)
+			}
+			compare(raw, &hc, data, k)
+			continue
+		}
 		mm := memMap(c.Map, v, d.Fmt == "heap" || d.Fmt == "cpu")
 		if d.Fmt == "gocount" && mm != "" {
 			data = append(data, '\n')
